@@ -712,6 +712,9 @@ fn recheck(c: &Case) -> Vec<Violation> {
     if c.cfg.get("census").is_some() {
         return crate::props::builder_ops::check_case(c);
     }
+    if c.cfg.get("resurrected_type").is_some() {
+        return crate::props::builder_ops::check_resurrected_type_case(c);
+    }
     if c.cfg.get("br_table").is_some() {
         return crate::props::builder_ops::check_br_table_case(c);
     }
@@ -797,6 +800,11 @@ pub fn run(args: &Args) -> i32 {
             viol.extend(crate::props::builder_ops::check_op_name_case(c));
         }
         ev.extra.insert("builder_operator_name_census".into(), json!({"cases": oc.len(), "distinct_unary_and_binary_operators": names.len()}));
+    }
+    for c in &crate::props::builder_ops::resurrected_type_cases() {
+        ev.evaluations += 1;
+        ev.transitions += 1;
+        viol.extend(crate::props::builder_ops::check_resurrected_type_case(c));
     }
     for c in &crate::props::builder_ops::br_table_cases() {
         ev.evaluations += 1;
